@@ -9,7 +9,7 @@ THEOREMS = ['C05_ampcons', 'C05_ampcons_dir', 'C05_ampcons_dir_both', 'C05_flank
             'C05_mono_steps', 'C05_mono_range', 'C05_rank', 'C05_rank_undefined', 'C05_rank_range', 'C05_rank_order', 'C05_routing']
 RULE = ("(a) synthetic tables: rise / decay voltages over small integers incl. 0 and negatives (NaN, -inf, clamp, ratios > 1), periods, volt_amp with ties, both "
         "centrings, directions both/next/last, n = 0..12; (b) tables from compute_features(burst_method='cycles') on generated signals (tie-rich quantised / clipped / "
-        "plateau families included), both centrings, row labels 0..n-1 / offset (a cut table) / reversed (positions, not labels, define neighbours), one peak-centred table in six also WITHOUT its sample columns (known finding): amp_fraction, amp_consistency, period_consistency, monotonicity columns vs the Lean model and the centring-free "
+        "plateau families included), both centrings, row labels 0..n-1 / offset (a cut table) / reversed (positions, not labels, define neighbours), one peak-centred table in three also WITHOUT its sample columns (known finding): amp_fraction, amp_consistency, period_consistency, monotonicity columns vs the Lean model and the centring-free "
         "Lean specification (flank sequence; strict steps); NaN pattern exact, finite values within 1e-12; distinct = distinct inputs; non-trivial = >= 3 cycles")
 ASSUMPTIONS = ["pandas Series.rank(method='average'), np.nanmin, np.mean are transcribed primitives (E6)", "finite values compared within 1e-12 relative"]
 BATCH = 300
@@ -69,7 +69,7 @@ def generate(ctx):
         s = gen.make_signal(ctx.sub_rng(i), family=fams[i % len(fams)])
         cases.append(dict(kind='signal', sig=proto.arr2hex(s['sig']), fs=s['fs'], f_range=list(s['f_range']),
                           center=str(rng.choice(['peak', 'trough'])), family=s['family'], lab=int(rng.choice([0, 0, 1, 2])),
-                          dt=(str(rng.choice(['uint8', 'uint16', 'int16', 'int8'])) if rng.random() < 0.2 else None), reuse=bool(rng.random() < 0.25), nosamp=bool(i % 6 == 1)))
+                          dt=(str(rng.choice(['uint8', 'uint16', 'int16', 'int8'])) if rng.random() < 0.2 else None), reuse=bool(rng.random() < 0.25), nosamp=bool(i % 3 == 1)))
     return cases
 
 def _relabel(df, lab):
